@@ -93,6 +93,8 @@ class Desugar(ast.NodeTransformer):
         for s in module_tree.body:
             if isinstance(s, ast.FunctionDef) and not s.decorator_list and self._inlinable_generator(s):
                 self.generators[s.name] = s
+        self.carriers = {c.name: info for c in module_tree.body if isinstance(c, ast.ClassDef) for info in [self._carrier_info(c)] if info is not None}
+        self.class_is_carrier = False
         self.class_tables: List[Dict[str, ast.expr]] = []
         self.attr_stores = {x.attr for x in ast.walk(module_tree) if isinstance(x, ast.Attribute) and isinstance(x.ctx, (ast.Store, ast.Del))}
         self.func_stack: List[ast.AST] = []
@@ -420,17 +422,145 @@ class Desugar(ast.NodeTransformer):
                 if len(tg) == 1 and isinstance(tg[0], ast.Name) and counts[tg[0].id] == 1 and self._table(s.value) is not None:
                     tabs[tg[0].id] = s.value
         self.class_tables.append(tabs)
+        was = self.class_is_carrier
+        self.class_is_carrier = node.name in self.carriers
         try:
             return self.generic_visit(node)
         finally:
             self.class_tables.pop()
+            self.class_is_carrier = was
 
     def visit_FunctionDef(self, node):
         self.func_stack.append(node)
         try:
+            if self.carriers and not self.class_is_carrier:
+                self._inline_carriers(node)
             return self.generic_visit(node)
         finally:
             self.func_stack.pop()
+
+    # ------------------------------------------------------------------ private carrier classes
+    @staticmethod
+    def _carrier_info(c: ast.ClassDef):
+        """(fields, properties, factories) of a private NamedTuple / dataclass that only carries values around, or None"""
+        if not c.name.startswith("_"):
+            return None
+        bases = [ast.unparse(b).split(".")[-1] for b in c.bases]
+        is_nt = bases == ["NamedTuple"]
+        is_dc = not bases and any(ast.unparse(d).split("(")[0].split(".")[-1] == "dataclass" for d in c.decorator_list)
+        if not (is_nt or is_dc):
+            return None
+        fields, props, facts = [], {}, {}
+        for s_ in c.body:
+            if isinstance(s_, ast.Expr) and isinstance(s_.value, ast.Constant):
+                continue
+            if isinstance(s_, ast.AnnAssign) and isinstance(s_.target, ast.Name):
+                fields.append((s_.target.id, s_.value))
+                continue
+            if isinstance(s_, ast.FunctionDef):
+                decs = [ast.unparse(d).split(".")[-1] for d in s_.decorator_list]
+                body = [b for b in s_.body if not (isinstance(b, ast.Expr) and isinstance(b.value, ast.Constant))]
+                if decs == ["property"] and body and isinstance(body[-1], ast.Return) and body[-1].value is not None and \
+                        all(isinstance(b, ast.Assign) and len(b.targets) == 1 and isinstance(b.targets[0], ast.Name) for b in body[:-1]):
+                    props[s_.name] = body
+                    continue
+                if decs == ["classmethod"] and len(body) == 1 and isinstance(body[0], ast.Return) and isinstance(body[0].value, ast.Call) and \
+                        isinstance(body[0].value.func, ast.Name) and s_.args.args and body[0].value.func.id == s_.args.args[0].arg and not s_.args.vararg and not s_.args.kwarg:
+                    facts[s_.name] = s_
+                    continue
+            return None
+        return fields, props, facts
+
+    def _inline_carriers(self, fn) -> None:
+        for i, st_ in enumerate(list(fn.body)):
+            if not (isinstance(st_, (ast.Assign, ast.AnnAssign)) and st_.value is not None and isinstance(st_.value, ast.Call)):
+                continue
+            tg = st_.targets if isinstance(st_, ast.Assign) else [st_.target]
+            if len(tg) != 1 or not isinstance(tg[0], ast.Name):
+                continue
+            x = tg[0].id
+            call = st_.value
+            cname, factory = None, None
+            if isinstance(call.func, ast.Name) and call.func.id in self.carriers:
+                cname = call.func.id
+            elif isinstance(call.func, ast.Attribute) and isinstance(call.func.value, ast.Name) and call.func.value.id in self.carriers and \
+                    call.func.attr in self.carriers[call.func.value.id][2]:
+                cname, factory = call.func.value.id, call.func.attr
+            if cname is None or any(isinstance(a, ast.Starred) for a in call.args) or any(k.arg is None for k in call.keywords):
+                continue
+            fields, props, facts = self.carriers[cname]
+            stores = [n for n in ast.walk(fn) if isinstance(n, ast.Name) and n.id == x and isinstance(n.ctx, (ast.Store, ast.Del))]
+            loads = [n for n in ast.walk(fn) if isinstance(n, ast.Name) and n.id == x and isinstance(n.ctx, ast.Load)]
+            attrs = [n for n in ast.walk(fn) if isinstance(n, ast.Attribute) and isinstance(n.value, ast.Name) and n.value.id == x and isinstance(n.ctx, ast.Load)]
+            names = {f for f, _ in fields}
+            if len(stores) != 1 or not loads or len(loads) != len(attrs) or any(a.attr not in names and a.attr not in props for a in attrs):
+                continue
+            ctor = call
+            if factory is not None:
+                fdef = facts[factory]
+                ps = [a.arg for a in fdef.args.args[1:]]
+                if len(call.args) > len(ps):
+                    continue
+                bound = dict(zip(ps, call.args))
+                bound.update({k.arg: k.value for k in call.keywords})
+                if set(bound) != set(ps) or not all(_simple(v) for v in bound.values()):
+                    continue
+                ctor = _Subst(bound).visit(copy.deepcopy(fdef.body[-1].value if not isinstance(fdef.body[-1], ast.Return) else
+                                                         [b for b in fdef.body if isinstance(b, ast.Return)][0].value))
+            fnames = [f for f, _ in fields]
+            if len(ctor.args) > len(fnames):
+                continue
+            vals = dict(zip(fnames, ctor.args))
+            vals.update({k.arg: k.value for k in ctor.keywords})
+            for f, d in fields:
+                if f not in vals and d is not None:
+                    vals[f] = d
+            if set(vals) != set(fnames):
+                continue
+            pre: List[ast.stmt] = []
+            fieldexpr: Dict[str, ast.expr] = {}
+            for f in fnames:
+                v = vals[f]
+                if _simple(v):
+                    fieldexpr[f] = v
+                else:
+                    nm = f"{x}__{f}"
+                    pre.append(ast.copy_location(ast.Assign(targets=[ast.Name(id=nm, ctx=ast.Store())], value=v), st_))
+                    fieldexpr[f] = ast.Name(id=nm, ctx=ast.Load())
+
+            def prop_expr(name: str) -> ast.expr:
+                body = props[name]
+                local: Dict[str, ast.expr] = {}
+
+                class P(ast.NodeTransformer):
+                    def visit_Attribute(self, n: ast.Attribute):
+                        if isinstance(n.value, ast.Name) and n.value.id == "self" and isinstance(n.ctx, ast.Load):
+                            if n.attr in fieldexpr:
+                                return ast.copy_location(copy.deepcopy(fieldexpr[n.attr]), n)
+                            if n.attr in props:
+                                return ast.copy_location(prop_expr(n.attr), n)
+                        return self.generic_visit(n)
+
+                    def visit_Name(self, n: ast.Name):
+                        if isinstance(n.ctx, ast.Load) and n.id in local:
+                            return ast.copy_location(copy.deepcopy(local[n.id]), n)
+                        return n
+                for b in body[:-1]:
+                    local[b.targets[0].id] = P().visit(copy.deepcopy(b.value))
+                return P().visit(copy.deepcopy(body[-1].value))
+
+            class U(ast.NodeTransformer):
+                def visit_Attribute(self, n: ast.Attribute):
+                    if isinstance(n.value, ast.Name) and n.value.id == x and isinstance(n.ctx, ast.Load):
+                        e = copy.deepcopy(fieldexpr[n.attr]) if n.attr in fieldexpr else prop_expr(n.attr)
+                        return ast.copy_location(e, n)
+                    return self.generic_visit(n)
+            idx = fn.body.index(st_)
+            rest = [U().visit(b) for b in fn.body[idx + 1:]]
+            fn.body = fn.body[:idx] + pre + rest
+            for b in fn.body:
+                ast.fix_missing_locations(b)
+            self.count["carrier"] = self.count.get("carrier", 0) + 1
 
     visit_AsyncFunctionDef = visit_FunctionDef
 
